@@ -294,6 +294,27 @@ PROPS = {
                 "leaf: c05_refuted_empty_leaf, c05_refuted_overwrite_binary) and mg_srcok, and are proved for the copySliceField variant that shares unkeyed entries (the leaf sets are the same); "
                 "'inputs unchanged' is oracle-only (trivial in a functional model).",
     ),
+    "C13": dict(
+        level="proof",
+        technique="Coq proof (phase structure by induction over the operation lists; refinement of a declarative leaf-map spec from two per-operation lemmas) + differential correspondence check",
+        claim="UnmarshalSetRequest is one loop over deletes ++ replaces ++ updates in message order with every path joined to the prefix (c13_setrequest_one_loop: equality for any request, tree, "
+              "options and outcome); success is exactly the left fold of DeleteNode / (DeleteNode;SetNode) / SetNode (c13_setrequest_is_fold, _opts, _fold_left); without BestEffortUnmarshal the first "
+              "failing operation ends the request and its partial effect stays (c13_first_error_stops, c13_error_is_first_failure, c13_no_rollback); with it every operation is attempted "
+              "(c13_best_effort_tree, c13_best_effort_attempts_all); UnmarshalNotifications is the sequence of per-notification requests and an atomic notification deletes the subtree at its prefix "
+              "first (c13_notifs_are_requests(_fold), c13_atomic_replaces_prefix). Reference semantics on the leaf map (spec_delete/spec_update/spec_replace/spec_set, Tree/SetReqSpec.v): "
+              "c13_refines_scalar, c13_history, c13_atomic_leaves derive 'leaves after = spec(leaves before)' for scalar payloads on leaf/leaf-list paths from the two per-operation statements "
+              "leaves_after_delete_stmt / leaves_after_set_leaf_stmt (explicit premises). The same reference semantics is the implementation-side oracle of the setreq stream.",
+        note="Trusted: Coq kernel; hand transcription of ytypes/gnmi.go and node.go tied by the setreq, setreqkeys and nodeops streams; Go maps as sorted association lists. The premises "
+             "c13_delete_premise / c13_set_premise are statements about Tree/Node.v (C10/C12), tested on the stream cases by Corr/SetReqSpecCorr.v but not proved.",
+        coq_files=["Tree/SetReq", "Tree/SetReqSpec", "Tree/SetReqProofs", "Tree/GnmiStatements", "Corr/GnmiCorr", "Corr/SetReqSpecCorr"],
+        streams=[dict(name="setreq", n=N(700, 6000)), dict(name="setreqkeys", n=N(300, 900))],
+        signatures=["setrequest/", "gnmi/empty-type", "gnmi/empty-leaflist", "union/wrapper-binary-unsettable"],
+        trusted=["schema translator and tree printer (tree.go)", "float and key oracle tables produced by the harness"],
+        partial="c13_refines_scalar / c13_history / c13_atomic_leaves are conditional on the two per-operation lemmas (c13_delete_premise, c13_set_premise: leaves after DeleteNode / SetNode on guarded "
+                "targets); guards: no key-leaf targets, scalar payloads of the leaf's type, paths with complete canonical sorted keys, no ordered list on the path; JSON payloads are covered by the "
+                "structural theorems only. Refuted on the model (and the implementation): c13_refuted_noncanonical_key_replaces_entry, c13_refuted_ordered_list_merge (C31 limitation), "
+                "c13_refuted_empty_leaflist, c13_refuted_best_effort_panic (NaN decimal64 key).",
+    ),
     "C14": dict(
         level="proof",
         technique="Coq proof (totality, leaf preservation, idempotence, build/prune) by induction over arbitrary schemas and trees + differential correspondence check",
